@@ -11,7 +11,7 @@ a difference there is attributed to K9 only when the spec contains the shared mu
 import sys, random, copy
 import ciw
 from .. import gen, runner, profiles
-from .common import CapSim, guarded, fingerprint, first_diff, Summary
+from .common import reaches_open_finding, CapSim, guarded, fingerprint, first_diff, Summary
 
 PROFILE = {'horizons': [8.0, 12.0, 20.0], 'p_exact': 0.15, 'p_renege': 0.35, 'p_cct': 0.25, 'p_ccm': 0.3, 'p_batch': 0.3}
 BUDGET = {'quick': 160, 'thorough': 3000}
@@ -49,6 +49,9 @@ def worker(job, extra):
     spec = job.get('spec') or gen.gen_spec(seed, dict(PROFILE))
     spec['tie'] = 'native'
     res = {'job': job, 'seed': seed, 'cmp': {}, 'features': sorted(gen.features(spec)), 'sig': repr(gen.topo_signature(spec))}
+    k_ = reaches_open_finding(spec)
+    if k_:
+        res['status'] = 'skipped_reaches_' + k_; return res
     A = outcome(run_fresh(spec, seed))
     res['status'] = A[0]
     if A[0] in ('timeout', 'cap'):
